@@ -7,5 +7,5 @@ import (
 )
 
 func main() {
-	mcreport.Main("C06", "model_checking", connRule, connAssume, connDefs("C06"), 75*time.Second, 12*time.Minute, nil)
+	mcreport.Main("C06", "model_checking", connRule, connAssume, connDefs("C06"), 75*time.Second, 25*time.Minute, nil)
 }
